@@ -256,6 +256,12 @@ def merge_to_number(desired_chunks, max_number):
     """
     if len(desired_chunks) <= max_number:
         return desired_chunks
+    if 0 in desired_chunks and any(desired_chunks):
+        # 0 is the "merged away" marker below, and zero-width chunks carry
+        # nothing an intermediate layout needs: drop them first
+        desired_chunks = tuple(c for c in desired_chunks if c)
+        if len(desired_chunks) <= max_number:
+            return desired_chunks
 
     distinct = set(desired_chunks)
     if len(distinct) == 1:
